@@ -61,3 +61,31 @@ package keeper
 //@ loop 1 invariant goat_share: totalPower * (pool.Goat - *remainReward) <= pool.Goat * powsum(arr(voteinfos()), off(voteinfos()), rangeindex + 1) && *remainReward <= pool.Goat
 //@ loop 1 invariant gas_share: totalPower * (pool.Gas - *remainGas) <= pool.Gas * powsum(arr(voteinfos()), off(voteinfos()), rangeindex + 1) && *remainGas <= pool.Gas
 //@ modifies st.locking.RewardPool, st.locking.Validators
+
+// ---- C11 / C15: a single unlock ---------------------------------------------------------------
+// status values: Pending 1, Active 2, Tombstoned 3, Downgrade 4, Inactive 5.
+
+//@ func (Keeper).unlock
+//@ opt prune=1
+//@ property C11 C15 C14
+//@ let vaddr = req.Validator
+//@ let denom = types.TokenDenom(req.Token)
+//@ let held = amt(old(st.locking.Validators[req.Validator].Locking), types.TokenDenom(req.Token))
+//@ let paid = ite(*req.Amount <= held, *req.Amount, held)
+//@ let oldstatus = old(st.locking.Validators[req.Validator].Status)
+//@ let exiting = (oldstatus == 5 || oldstatus == 3 || held - paid < st.locking.Tokens[types.TokenDenom(req.Token)].Threshold)
+//@ let due = blocktime() + ite(exiting, param.ExitingDuration, param.UnlockDuration)
+//@ requires args: req != nil && param != nil && req.Amount != nil && *req.Amount >= 0
+//@ requires durations: param.UnlockDuration >= 0 && param.ExitingDuration >= param.UnlockDuration
+//@ ensures never_more: err == nil ==> 0 <= paid && paid <= *req.Amount && paid <= held
+//@ ensures holding: err == nil ==> forallb(d, amt(st.locking.Validators[vaddr].Locking, d) == amt(old(st.locking.Validators[vaddr].Locking), d) - ite(d == denom, paid, 0))
+//@ ensures queued: err == nil ==> has(st.locking.UnlockQueue, due)
+//@           && len(st.locking.UnlockQueue[due].Unlocks) == ite(old(has(st.locking.UnlockQueue, due)), len(old(st.locking.UnlockQueue[due].Unlocks)), 0) + 1
+//@           && st.locking.UnlockQueue[due].Unlocks[len(st.locking.UnlockQueue[due].Unlocks) - 1].Amount == paid
+//@           && st.locking.UnlockQueue[due].Unlocks[len(st.locking.UnlockQueue[due].Unlocks) - 1].Id == req.Id
+//@ ensures delay: err == nil ==> due >= blocktime() + param.UnlockDuration && (exiting ==> due == blocktime() + param.ExitingDuration)
+//@ ensures exit_drops_power: err == nil && exiting ==> st.locking.Validators[vaddr].Power == 0 && (oldstatus == 3 ==> st.locking.Validators[vaddr].Status == 3) && (oldstatus != 3 ==> st.locking.Validators[vaddr].Status == 5)
+//@ ensures tombstone_absorbing: err == nil && oldstatus == 3 ==> st.locking.Validators[vaddr].Status == 3 && st.locking.Validators[vaddr].Power == 0
+//@ ensures others_untouched: err == nil ==> forallb(a, a != vaddr ==> has(st.locking.Validators, a) == old(has(st.locking.Validators, a)) && st.locking.Validators[a] == old(st.locking.Validators[a]))
+//@ loop 0 invariant true
+//@ modifies st.locking.Validators, st.locking.PowerRanking, st.locking.Locking, st.locking.UnlockQueue
